@@ -82,3 +82,11 @@ SEEDS = [
  {"name": "c06-dirrecord-volume-sequence-read-big-endian", "properties": ["C06"], "expect": "C06-b|",
   "edits": [e("filesystem/iso9660/directoryentry.go", "volumeSequence := binary.LittleEndian.Uint16(b[28:30])", "volumeSequence := binary.BigEndian.Uint16(b[28:30])")]},
 ]
+
+# --- third session
+SEEDS += [
+ {"name": "c19-fat-flag-bits-exclusive", "properties": ["C19"], "expect": "C19-f|",
+  "edits": [e("filesystem/fat12/directoryentry.go", "	if de.isSubdirectory {\n		dosBytes[11] |= 0x10\n	}\n	if de.isArchiveDirty {\n		dosBytes[11] |= 0x20\n	}", "	if de.isSubdirectory {\n		dosBytes[11] |= 0x10\n	} else if de.isArchiveDirty {\n		dosBytes[11] |= 0x20\n	}")]},
+ {"name": "c19-ext4-epoch-bits-from-raw-high-bits", "properties": ["C19", "C04"], "expect": "seconds word has one signedness",
+  "edits": [e("filesystem/ext4/inode.go", "		epoch := uint32(((sec - int64(low32)) >> 32) & 0x3) // epoch bits", "		epoch := uint32((sec >> 32) & 0x3) // epoch bits")]},
+]
